@@ -5,7 +5,7 @@ by the stdlib csv module.
 """
 import io, csv, json, re
 import xml.dom.minidom
-from rdflib import URIRef, BNode, Literal, Variable
+from rdflib import Graph, URIRef, BNode, Literal, Variable
 from rdflib.query import Result
 from rv.terms import enc, dec, lkey, show, rand_literal, rand_iri, XS
 from rv.lanes import run_cases
@@ -198,10 +198,64 @@ def lane_tables(ctx):
     run_cases(ctx, gen_table, run_table, "rows", sample=lambda c: c if c["kind"] == "ask" else dict(vars=c["vars"], rows=c["rows"][:2]))
 
 
-LANES = {"tables": dict(fn=lane_tables, quick=100000, thorough=2000000)}
-REQUIRED_COUNTERS = {"any": ["cmp:json", "cmp:xml", "cmp:tsv", "cmp:csv", "cmp:ask:json", "cmp:ask:xml"]}
+# ------------------------------------------------------------------ results that come from the engine (lazy), touched before they are written
+LIVE_OPS = ["peek", "break", "len", "bool", "bindings", "vars", "iterate-all", "eq-self"]
+
+
+def gen_live(rng):
+    n = rng.choice([1, 2, 3, 4, 6])
+    return dict(kind="live", n=n, ops=[rng.choice(LIVE_OPS) for _ in range(rng.choice([0, 1, 1, 2, 3]))], fmt=rng.choice(["json", "xml", "csv", "txt"]),
+                objs=[enc(Literal(i)) for i in range(n)])     # plain values: this lane is about what the caller did with the result object, the tables lane about hostile terms
+
+
+def run_live(case, st=None):
+    """a SELECT result obtained from Graph.query is used like an iterator / sequence by the caller first and serialised afterwards: the exchange
+    format must still carry every solution"""
+    st = st if st is not None else {}
+    import io
+    g = Graph()
+    objs = [dec(o) for o in case["objs"]]
+    subj = [URIRef("urn:e:s%d" % i) for i in range(case["n"])]
+    for s_, o_ in zip(subj, objs):
+        if isinstance(o_, Literal) or isinstance(o_, URIRef): g.add((s_, URIRef("urn:e:p"), o_))
+        else: g.add((s_, URIRef("urn:e:p"), URIRef("urn:e:o")))
+    want = sorted(str(s_) for s_ in subj)
+    try:
+        res = g.query("SELECT ?s ?o WHERE { ?s <urn:e:p> ?o }")
+        for op in case["ops"]:
+            if op == "peek": next(iter(res), None)
+            elif op == "break":
+                for _ in res: break
+            elif op == "len": len(res)
+            elif op == "bool": bool(res)
+            elif op == "bindings": res.bindings
+            elif op == "vars": res.vars
+            elif op == "iterate-all": list(res)
+            elif op == "eq-self": res == res
+        fmt = case["fmt"]
+        data = res.serialize(format=fmt)
+        if fmt == "txt":      # the text table has no reader: count the subjects in it
+            text = data.decode("utf-8") if isinstance(data, bytes) else data
+            got = sorted(set(re.findall(r"urn:e:s\d+", text)))
+        else:
+            back = Result.parse(io.BytesIO(data if isinstance(data, bytes) else data.encode("utf-8")), format=fmt)
+            got = sorted(str(b[Variable("s")]) for b in back.bindings if b.get(Variable("s")) is not None)
+    except Exception as ex:
+        return ("live-raises", "a query result used with %s and then written as %s raised %s: %s" % (case["ops"], case["fmt"], type(ex).__name__, str(ex)[:200]))
+    st["live:" + case["fmt"]] = st.get("live:" + case["fmt"], 0) + 1
+    if got != want:
+        return ("live-rows-lost", "a SELECT result with %d solutions, used with %s before being written as %s, came back with the solutions for %s" % (case["n"], case["ops"], case["fmt"], got))
+    return None
+
+
+def lane_live(ctx):
+    run_cases(ctx, gen_live, run_live, None, sample=lambda c: dict(n=c["n"], ops=c["ops"], fmt=c["fmt"]))
+
+
+LANES = {"tables": dict(fn=lane_tables, quick=100000, thorough=2000000), "live": dict(fn=lane_live, quick=6000, thorough=120000)}
+REQUIRED_COUNTERS = {"any": ["cmp:json", "cmp:xml", "cmp:tsv", "cmp:csv", "cmp:ask:json", "cmp:ask:xml", "cmp:live:json", "cmp:live:xml", "cmp:live:csv", "cmp:live:txt"]}
 
 
 def replay(w):
-    r = run_table(w)
+    r = run_live(w) if w.get("kind") == "live" else run_table(w)
     return None if not r else "%s: %s" % r
